@@ -13,6 +13,9 @@ import (
 type Oracle struct {
 	// Terminal returns "" when the terminal state is correct.
 	Terminal func(w *World) string
+	// Every returns "" when the state reached by a transition is acceptable; evaluated on every transition (it may
+	// look at state that is not part of the state key, such as the squasher's in-memory stores).
+	Every func(w *World) string
 }
 
 type Result struct {
@@ -88,6 +91,11 @@ func (x *Explorer) BFS() Result {
 	checkHistory := func(w *World, path []string) {
 		if w.Violation != "" {
 			fail(w.Violation+" | state: "+w.Describe(), path)
+		}
+		if x.Oracle.Every != nil {
+			if v := x.Oracle.Every(w); v != "" {
+				fail(v, path)
+			}
 		}
 		for st, segs := range w.MergeLog {
 			for i := 1; i < len(segs); i++ {
